@@ -61,7 +61,8 @@ def programs(tier):
     # strings: every special character, alone and in company (written through multi-line string literals, which need a line feed)
     for name, b in SPECIAL.items():
         add(f"json-string:{name}", [Let("s", Str(bytes([97, b, 98]))), Let("v", pval(1, Var("s"), True), ty=P)] + both("v", "P"), expect="accept")
-        add(f"json-string-multiline:{name}", [Let("s", Str(bytes([97, b, 98, 10, 99]), multiline=True)), Let("v", pval(1, Var("s"), True), ty=P)] + both("v", "P"), expect="accept")
+        if b not in (10, 13):
+            add(f"json-string-multiline:{name}", [Let("s", Str(bytes([97, b, 98, 10, 99]), multiline=True)), Let("v", pval(1, Var("s"), True), ty=P)] + both("v", "P"), expect="accept")
     add("json-string:newline-only", [Let("s", Str(b"l1\nl2", multiline=True)), Let("v", Ctor(C, "B", Var("s"), Bool(True)), ty=C)] + both("v", "C"), expect="accept")
     add("json-string:mix", [Let("s", Str(b'"\\\n\t/ \xc3\xa9"')), Let("v", pval(1, Var("s"), True), ty=P)] + both("v", "P"), expect="accept")
     # floats
